@@ -180,6 +180,32 @@ def pipeline_oracle(ctx, td):
         if cosang[0] - cosang[1] > 1e-7 and g0 != g1:
             ctx.violation('directivity-rotation', 'rotating source orientation and scene together changes the directivity factor', inp, float(g1), float(g0))
             return
+    # the SAME directivity object serving a second source that differs only by a roll about its view
+    # axis, queried at the same targets: each source's factor is the table value of the measured
+    # direction nearest in ITS OWN frame (computed here from the table, not through the library)
+    ang = float(rng.uniform(0.6, 2.4))
+    up2 = up * np.cos(ang) + np.cross(view, up) * np.sin(ang)
+    src_b = sp.sound_object.SoundSource(pos, view, up2, d)
+    dirs = np.asarray(d.receivers.cartesian)
+    dirs = dirs / np.linalg.norm(dirs, axis=1, keepdims=True)
+    table = np.real(d.data.freq)
+    tf = np.asarray(d.data.frequencies)
+    kf = int(np.argmin(np.abs(tf - freqs[0])))
+    for j in range(min(12, r_dir.n_patches)):
+        for which, (src_x, up_x) in (('first', (src_d, up)), ('rolled', (src_b, up2))):
+            dvec = centers[j] - pos
+            u = np.array([np.dot(dvec, view), np.dot(dvec, np.cross(up_x, view)), np.dot(dvec, up_x)]) / np.linalg.norm(dvec)
+            cosang = dirs @ u
+            order_ = np.argsort(-cosang)
+            if cosang[order_[0]] - cosang[order_[1]] < 1e-7:
+                continue
+            want = float(table[order_[0], kf]) if table.ndim == 2 else float(np.squeeze(table)[order_[0]])
+            got = float(np.real(np.squeeze(src_x.get_directivity(centers[j], freqs[0]))))
+            ctx.oracle_evals += 1
+            if abs(got - want) > 1e-12 * max(abs(want), 1e-300):
+                ctx.violation('directivity-shared-object', 'the %s of two sources sharing one directivity object (same position and view, up vectors %.2f rad apart) gets factor %.6g towards patch %d; the measured direction nearest in its own frame has %.6g' % (which, ang, got, j, want),
+                              dict(inp, up_second=up2), got, want)
+                return
     ctx.nontriv(energy.describe(sc))
 
 
